@@ -171,3 +171,612 @@ example : (DpapiNg.RpcClient.mkHeader 0 16 1 0).WF := by
   constructor <;> decide
 
 end DpapiNg.C12
+
+/-! ## whole-PDU round trips (frame = header ‖ body ‖ optional security trailer) and verification trailers -/
+namespace DpapiNg.C12
+open DpapiNg DpapiNg.Rpc
+
+theorem sliceFrom_neg_suffix {α} (a b : List α) (n : Nat) (hn : b.length = n) (hpos : 0 < n) :
+    Py.sliceFrom (a ++ b) (-(n : Int)) = b := by
+  unfold Py.sliceFrom Py.clampIdx
+  have h0 : (-(n : Int)) < 0 := by omega
+  simp only [h0, if_true, List.length_append]
+  have : (-(n : Int) + ((a.length + b.length : Nat) : Int)).toNat = a.length := by omega
+  rw [this, List.drop_left]
+
+theorem sliceTo_neg_suffix {α} (a b : List α) (n : Nat) (hn : b.length = n) (hpos : 0 < n) :
+    Py.sliceTo (a ++ b) (-(n : Int)) = a := by
+  unfold Py.sliceTo Py.clampIdx
+  have h0 : (-(n : Int)) < 0 := by omega
+  simp only [h0, if_true, List.length_append]
+  have : (-(n : Int) + ((a.length + b.length : Nat) : Int)).toNat = a.length := by omega
+  rw [this, List.take_left]
+
+theorem sliceN_rest {α} (a x : List α) (i n : Nat) (hi : a.length = i) (hn : n = i + x.length) : Py.sliceN (a ++ x) i n = x := by
+  unfold Py.sliceN
+  have : (a ++ x).take n = a ++ x := List.take_of_length_le (by simp; omega)
+  rw [this, ← hi, List.drop_left]
+
+/-- the security trailer of a PDU, as far as the codec is concerned -/
+def TrailerWF (t : Option SecTrailer) : Prop :=
+  match t with
+  | none => True
+  | some t => validProvider t.type = true ∧ validLevel t.level = true ∧ t.padLength < 256 ∧ t.contextId < 4294967296 ∧ 0 < t.authValue.length
+
+def authLenOf (t : Option SecTrailer) : Nat := match t with | none => 0 | some t => t.authValue.length
+
+/-- the part of `PDU.unpack` common to all PDU types: header, body region, optional security trailer -/
+theorem unpack_frame (h : Header) (wf : h.WF) (t : Option SecTrailer) (twf : TrailerWF t) (hb body : Bytes)
+    (hh : headerPack h = .ok hb) (hal : h.authLen = authLenOf t) :
+    ∃ tb, optTrailerPack t = .ok tb ∧ (h.fragLen = 16 + body.length + tb.length →
+      pduUnpack (hb ++ body ++ tb) =
+        (bodyUnpack h.packetType h.packetFlags body >>= fun b =>
+          pure ⟨h, (match b with | .bindNak _ _ => none | _ => t), b⟩)) := by
+  obtain ⟨hb', hp, hl, hu⟩ := header_roundtrip h wf (body ++ (match t with | none => [] | some _ => []))
+  rw [hh] at hp; cases hp
+  cases t with
+  | none =>
+    refine ⟨[], rfl, fun hf => ?_⟩
+    obtain ⟨_, hp2, _, hu2⟩ := header_roundtrip h wf body
+    rw [hh] at hp2; cases hp2
+    unfold pduUnpack
+    simp only [List.append_nil, hu2, bind, Except.bind]
+    have hz : h.authLen = 0 := hal
+    have s1 : Py.sliceN (hb ++ body) 16 h.fragLen = body := by
+      simp only [List.length_nil, Nat.add_zero] at hf
+      exact sliceN_rest hb body 16 _ hl hf
+    simp only [hz, ne_eq, not_true_eq_false, if_false, s1, pure, Except.pure]
+    cases bodyUnpack h.packetType h.packetFlags body <;> rfl
+  | some tr =>
+    obtain ⟨w1, w2, w3, w4, w5⟩ := twf
+    obtain ⟨tb, htp, htl, htu⟩ := secTrailer_roundtrip tr w1 w2 w3 w4
+    refine ⟨tb, htp, fun hf => ?_⟩
+    obtain ⟨_, hp2, _, hu2⟩ := header_roundtrip h wf (body ++ tb)
+    rw [hh] at hp2; cases hp2
+    unfold pduUnpack
+    rw [List.append_assoc, hu2]
+    simp only [bind, Except.bind]
+    have ha : h.authLen = tr.authValue.length := hal
+    have hnz : h.authLen ≠ 0 := by omega
+    have s1 : Py.sliceN (hb ++ (body ++ tb)) 16 h.fragLen = body ++ tb := by
+      exact sliceN_rest hb (body ++ tb) 16 _ hl (by simp; omega)
+    have hcast : ((h.authLen : Int) + 8) = ((tb.length : Nat) : Int) := by rw [htl, ha]; omega
+    simp only [hnz, ne_eq, not_false_eq_true, if_true, s1, hcast]
+    rw [sliceFrom_neg_suffix body tb tb.length rfl (by omega), sliceTo_neg_suffix body tb tb.length rfl (by omega), htu]
+    simp only [pure, Except.pure]
+    cases bodyUnpack h.packetType h.packetFlags body <;> rfl
+
+/-- RESPONSE PDUs (the carrier of the GetKey reply): decode(encode p) = p, with or without a security trailer, any stub -/
+theorem response_roundtrip (h : Header) (wf : h.WF) (t : Option SecTrailer) (twf : TrailerWF t) (ah cid cc : Nat) (stub : Bytes)
+    (hpt : h.packetType = 2) (hal : h.authLen = authLenOf t) (h1 : ah < 4294967296) (h2 : cid < 65536) (h3 : cc < 256) :
+    ∃ b, pduPack ⟨h, t, .response ah cid cc stub⟩ = .ok b ∧
+      (h.fragLen = b.length → pduUnpack b = .ok ⟨h, t, .response ah cid cc stub⟩) := by
+  obtain ⟨hb, hh, hl, _⟩ := header_roundtrip h wf []
+  obtain ⟨tb, htb, hframe⟩ := unpack_frame h wf t twf hb (Py.toLE ah 4 ++ Py.toLE cid 2 ++ [cc] ++ [0] ++ stub) hh hal
+  unfold pduPack
+  simp only [hh, bind, Except.bind, le_ok _ 4 h1, le_ok _ 2 h2, le_ok _ 1 (show cc < 256 ^ 1 by omega), toLE1 _ h3, htb, pure, Except.pure]
+  refine ⟨_, rfl, fun hf => ?_⟩
+  have hf' : h.fragLen = 16 + (Py.toLE ah 4 ++ Py.toLE cid 2 ++ [cc] ++ [0] ++ stub).length + tb.length := by
+    rw [hf]; simp [hl]; omega
+  have e := hframe hf'
+  simp only [List.append_assoc] at e ⊢
+  rw [e, hpt]
+  generalize hA : Py.toLE ah 4 = A
+  generalize hB : Py.toLE cid 2 = B
+  have lA : A.length = 4 := by rw [← hA]; simp
+  have lB : B.length = 2 := by rw [← hB]; simp
+  have vA : Py.fromLE A = ah := by rw [← hA]; exact Py.fromLE_toLE _ 4 (by omega)
+  have vB : Py.fromLE B = cid := by rw [← hB]; exact Py.fromLE_toLE _ 2 (by omega)
+  unfold bodyUnpack at_ Py.index
+  have n1 : ¬ ((2 : Nat) = 11 ∨ (2 : Nat) = 14) := by decide
+  have n2 : ¬ ((2 : Nat) = 12 ∨ (2 : Nat) = 15) := by decide
+  have n3 : ¬ ((2 : Nat) = 13) := by decide
+  have n4 : ¬ ((2 : Nat) = 0) := by decide
+  simp only [n1, n2, n3, n4, if_false, if_true]
+  have s1 : Py.sliceN (A ++ (B ++ (cc :: 0 :: stub))) 0 4 = A := by slices0 [lA]
+  have s2 : Py.sliceN (A ++ (B ++ (cc :: 0 :: stub))) 4 6 = B := by slices0 [lA, lB]
+  have s3 : (A ++ (B ++ (cc :: 0 :: stub)))[6]? = some cc := by
+    rw [List.getElem?_append_right (by omega), List.getElem?_append_right (by omega)]; simp [lA, lB]
+  have s4 : (A ++ (B ++ (cc :: 0 :: stub))).drop 8 = stub := by slices0 [lA, lB]
+  simp only [List.cons_append, List.nil_append, s1, s2, s3, s4, vA, vB, bind, Except.bind, pure, Except.pure]
+
+/-- REQUEST PDUs: decode(encode p) = p; the object UUID is present exactly when PFC_OBJECT_UUID (0x80) is set -/
+theorem request_roundtrip (h : Header) (wf : h.WF) (t : Option SecTrailer) (twf : TrailerWF t) (ah cid op : Nat) (obj : Option Bytes) (stub : Bytes)
+    (hpt : h.packetType = 0) (hal : h.authLen = authLenOf t) (h1 : ah < 4294967296) (h2 : cid < 65536) (h3 : op < 65536)
+    (hobj : match obj with | some u => u.length = 16 ∧ h.packetFlags / 128 % 2 = 1 | none => h.packetFlags / 128 % 2 ≠ 1) :
+    ∃ b, pduPack ⟨h, t, .request ah cid op obj stub⟩ = .ok b ∧
+      (h.fragLen = b.length → pduUnpack b = .ok ⟨h, t, .request ah cid op obj stub⟩) := by
+  obtain ⟨hb, hh, hl, _⟩ := header_roundtrip h wf []
+  obtain ⟨tb, htb, hframe⟩ := unpack_frame h wf t twf hb (Py.toLE ah 4 ++ Py.toLE cid 2 ++ Py.toLE op 2 ++ obj.getD [] ++ stub) hh hal
+  unfold pduPack
+  simp only [hh, bind, Except.bind, le_ok _ 4 h1, le_ok _ 2 h2, le_ok _ 2 h3, htb, pure, Except.pure]
+  refine ⟨_, rfl, fun hf => ?_⟩
+  have hf' : h.fragLen = 16 + (Py.toLE ah 4 ++ Py.toLE cid 2 ++ Py.toLE op 2 ++ obj.getD [] ++ stub).length + tb.length := by
+    rw [hf]; simp [hl]; omega
+  have e := hframe hf'
+  simp only [List.append_assoc] at e ⊢
+  rw [e, hpt]
+  generalize hA : Py.toLE ah 4 = A
+  generalize hB : Py.toLE cid 2 = B
+  generalize hC : Py.toLE op 2 = Cc
+  have lA : A.length = 4 := by rw [← hA]; simp
+  have lB : B.length = 2 := by rw [← hB]; simp
+  have lC : Cc.length = 2 := by rw [← hC]; simp
+  have vA : Py.fromLE A = ah := by rw [← hA]; exact Py.fromLE_toLE _ 4 (by omega)
+  have vB : Py.fromLE B = cid := by rw [← hB]; exact Py.fromLE_toLE _ 2 (by omega)
+  have vC : Py.fromLE Cc = op := by rw [← hC]; exact Py.fromLE_toLE _ 2 (by omega)
+  unfold bodyUnpack
+  have n1 : ¬ ((0 : Nat) = 11 ∨ (0 : Nat) = 14) := by decide
+  have n2 : ¬ ((0 : Nat) = 12 ∨ (0 : Nat) = 15) := by decide
+  have n3 : ¬ ((0 : Nat) = 13) := by decide
+  simp only [n1, n2, n3, if_false, if_true]
+  cases obj with
+  | none =>
+    have hfl : ¬ (h.packetFlags / 128 % 2 = 1) := hobj
+    simp only [Option.getD, List.nil_append] at *
+    have s1 : Py.sliceN (A ++ (B ++ (Cc ++ stub))) 0 4 = A := by slices0 [lA]
+    have s2 : Py.sliceN (A ++ (B ++ (Cc ++ stub))) 4 6 = B := by slices0 [lA, lB]
+    have s3 : Py.sliceN (A ++ (B ++ (Cc ++ stub))) 6 8 = Cc := by slices0 [lA, lB, lC]
+    have s4 : (A ++ (B ++ (Cc ++ stub))).drop 8 = stub := by slices0 [lA, lB, lC]
+    simp only [hfl, if_false, s1, s2, s3, s4, vA, vB, vC, bind, Except.bind, pure, Except.pure]
+  | some u =>
+    obtain ⟨hu, hfl⟩ := hobj
+    simp only [Option.getD] at *
+    have s1 : Py.sliceN (A ++ (B ++ (Cc ++ (u ++ stub)))) 0 4 = A := by slices0 [lA]
+    have s2 : Py.sliceN (A ++ (B ++ (Cc ++ (u ++ stub)))) 4 6 = B := by slices0 [lA, lB]
+    have s3 : Py.sliceN (A ++ (B ++ (Cc ++ (u ++ stub)))) 6 8 = Cc := by slices0 [lA, lB, lC]
+    have s4 : (A ++ (B ++ (Cc ++ (u ++ stub)))).drop 8 = u ++ stub := by slices0 [lA, lB, lC]
+    have s5 : Py.sliceN (u ++ stub) 0 16 = u := by slices0 [hu]
+    have s6 : (u ++ stub).drop 16 = stub := by slices0 [hu]
+    simp only [hfl, if_true, s1, s2, s3, s4, s5, s6, vA, vB, vC, uuidOf, hu, Except.map, bind, Except.bind, pure, Except.pure]
+
+/-- FAULT PDUs -/
+theorem fault_roundtrip (h : Header) (wf : h.WF) (t : Option SecTrailer) (twf : TrailerWF t) (ah cid cc status flags : Nat) (stub : Bytes)
+    (hpt : h.packetType = 3) (hal : h.authLen = authLenOf t) (h1 : ah < 4294967296) (h2 : cid < 65536) (h3 : cc < 256)
+    (h4 : status < 4294967296) (h5 : flags < 256) :
+    ∃ b, pduPack ⟨h, t, .fault ah cid cc status flags stub⟩ = .ok b ∧
+      (h.fragLen = b.length → pduUnpack b = .ok ⟨h, t, .fault ah cid cc status flags stub⟩) := by
+  obtain ⟨hb, hh, hl, _⟩ := header_roundtrip h wf []
+  obtain ⟨tb, htb, hframe⟩ := unpack_frame h wf t twf hb (Py.toLE ah 4 ++ Py.toLE cid 2 ++ [cc] ++ [flags] ++ Py.toLE status 4 ++ [0, 0, 0, 0] ++ stub) hh hal
+  unfold pduPack
+  simp only [hh, bind, Except.bind, le_ok _ 4 h1, le_ok _ 2 h2, le_ok _ 1 (show cc < 256 ^ 1 by omega), le_ok _ 1 (show flags < 256 ^ 1 by omega),
+    le_ok _ 4 h4, toLE1 _ h3, toLE1 _ h5, htb, pure, Except.pure]
+  refine ⟨_, rfl, fun hf => ?_⟩
+  have hf' : h.fragLen = 16 + (Py.toLE ah 4 ++ Py.toLE cid 2 ++ [cc] ++ [flags] ++ Py.toLE status 4 ++ [0, 0, 0, 0] ++ stub).length + tb.length := by
+    rw [hf]; simp [hl]; omega
+  have e := hframe hf'
+  simp only [List.append_assoc] at e ⊢
+  rw [e, hpt]
+  generalize hA : Py.toLE ah 4 = A
+  generalize hB : Py.toLE cid 2 = B
+  generalize hS : Py.toLE status 4 = S
+  have lA : A.length = 4 := by rw [← hA]; simp
+  have lB : B.length = 2 := by rw [← hB]; simp
+  have lS : S.length = 4 := by rw [← hS]; simp
+  have vA : Py.fromLE A = ah := by rw [← hA]; exact Py.fromLE_toLE _ 4 (by omega)
+  have vB : Py.fromLE B = cid := by rw [← hB]; exact Py.fromLE_toLE _ 2 (by omega)
+  have vS : Py.fromLE S = status := by rw [← hS]; exact Py.fromLE_toLE _ 4 (by omega)
+  unfold bodyUnpack at_ Py.index
+  have n1 : ¬ ((3 : Nat) = 11 ∨ (3 : Nat) = 14) := by decide
+  have n2 : ¬ ((3 : Nat) = 12 ∨ (3 : Nat) = 15) := by decide
+  have n3 : ¬ ((3 : Nat) = 13) := by decide
+  have n4 : ¬ ((3 : Nat) = 0) := by decide
+  have n5 : ¬ ((3 : Nat) = 2) := by decide
+  simp only [n1, n2, n3, n4, n5, if_false, if_true]
+  have s1 : Py.sliceN (A ++ (B ++ (cc :: flags :: (S ++ (0 :: 0 :: 0 :: 0 :: stub))))) 0 4 = A := by slices0 [lA]
+  have s2 : Py.sliceN (A ++ (B ++ (cc :: flags :: (S ++ (0 :: 0 :: 0 :: 0 :: stub))))) 4 6 = B := by slices0 [lA, lB]
+  have s3 : (A ++ (B ++ (cc :: flags :: (S ++ (0 :: 0 :: 0 :: 0 :: stub)))))[6]? = some cc := by
+    rw [List.getElem?_append_right (by omega), List.getElem?_append_right (by omega)]; simp [lA, lB]
+  have s3' : (A ++ (B ++ (cc :: flags :: (S ++ (0 :: 0 :: 0 :: 0 :: stub)))))[7]? = some flags := by
+    rw [List.getElem?_append_right (by omega), List.getElem?_append_right (by omega)]; simp [lA, lB]
+  have s4 : Py.sliceN (A ++ (B ++ (cc :: flags :: (S ++ (0 :: 0 :: 0 :: 0 :: stub))))) 8 12 = S := by slices0 [lA, lB, lS]
+  have s5 : (A ++ (B ++ (cc :: flags :: (S ++ (0 :: 0 :: 0 :: 0 :: stub))))).drop 16 = stub := by slices0 [lA, lB, lS]
+  simp only [List.cons_append, List.nil_append, s1, s2, s3, s3', s4, s5, vA, vB, vS, bind, Except.bind, pure, Except.pure]
+
+end DpapiNg.C12
+
+namespace DpapiNg.C12
+open DpapiNg DpapiNg.Rpc
+
+structure _root_.DpapiNg.Rpc.ContextResult.WF (r : ContextResult) : Prop where
+  result : r.result ≤ 3
+  reason : r.reason < 65536
+  uuid : r.syntaxUuid.length = 16
+  version : r.syntaxVersion < 4294967296
+
+theorem result_rt (r : ContextResult) (wf : r.WF) (rest : Bytes) :
+    ∃ b, resultPack r = .ok b ∧ b.length = 24 ∧ resultUnpack (b ++ rest) = .ok r := by
+  obtain ⟨w1, w2, w3, w4⟩ := wf
+  unfold resultPack
+  rw [le_ok _ 2 (by omega), le_ok _ 2 (by omega), le_ok _ 4 (by omega)]
+  simp only [bind, Except.bind, pure, Except.pure]
+  refine ⟨_, rfl, by simp [w3], ?_⟩
+  generalize hA : Py.toLE r.result 2 = A
+  generalize hB : Py.toLE r.reason 2 = B
+  generalize hC : Py.toLE r.syntaxVersion 4 = Cc
+  have lA : A.length = 2 := by rw [← hA]; simp
+  have lB : B.length = 2 := by rw [← hB]; simp
+  have lC : Cc.length = 4 := by rw [← hC]; simp
+  have vA : Py.fromLE A = r.result := by rw [← hA]; exact Py.fromLE_toLE _ 2 (by omega)
+  have vB : Py.fromLE B = r.reason := by rw [← hB]; exact Py.fromLE_toLE _ 2 (by omega)
+  have vC : Py.fromLE Cc = r.syntaxVersion := by rw [← hC]; exact Py.fromLE_toLE _ 4 (by omega)
+  unfold resultUnpack
+  simp only [List.append_assoc]
+  have s1 : Py.sliceN (A ++ (B ++ (r.syntaxUuid ++ (Cc ++ rest)))) 0 2 = A := by slices0 [lA]
+  have s2 : Py.sliceN (A ++ (B ++ (r.syntaxUuid ++ (Cc ++ rest)))) 2 4 = B := by slices0 [lA, lB]
+  have s3 : Py.sliceN (A ++ (B ++ (r.syntaxUuid ++ (Cc ++ rest)))) 4 20 = r.syntaxUuid := by slices0 [lA, lB, w3]
+  have s4 : Py.sliceN (A ++ (B ++ (r.syntaxUuid ++ (Cc ++ rest)))) 20 24 = Cc := by slices0 [lA, lB, w3, lC]
+  have n1 : ¬ r.result > 3 := by omega
+  simp [s1, s2, s3, s4, vA, vB, vC, n1, uuidOf, w3, bind, Except.bind, pure, Except.pure]
+
+theorem results_rt (rs : List ContextResult) (wf : ∀ r ∈ rs, r.WF) (rest : Bytes) :
+    ∃ bs, rs.mapM resultPack = .ok bs ∧ bs.flatten.length = 24 * rs.length ∧ resultsUnpack rs.length (bs.flatten ++ rest) = .ok rs := by
+  induction rs with
+  | nil => exact ⟨[], rfl, rfl, rfl⟩
+  | cons r rs ih =>
+    obtain ⟨bs, h1, h2, h3⟩ := ih (fun x hx => wf x (List.mem_cons_of_mem _ hx))
+    obtain ⟨b, hb, hl, hu⟩ := result_rt r (wf r List.mem_cons_self) (bs.flatten ++ rest)
+    refine ⟨b :: bs, by simp [List.mapM_cons, hb, h1, bind, Except.bind, pure, Except.pure], by simp [hl, h2]; omega, ?_⟩
+    simp only [List.flatten_cons, List.append_assoc, List.length_cons, resultsUnpack, hu, bind, Except.bind]
+    have : (b ++ (bs.flatten ++ rest)).drop 24 = bs.flatten ++ rest := by rw [← hl, List.drop_left]
+    simp [this, h3, pure, Except.pure]
+
+end DpapiNg.C12
+
+namespace DpapiNg.C12
+open DpapiNg DpapiNg.Rpc
+
+theorem zeros_length (n : Nat) : (Py.zeros n).length = n := by simp [Py.zeros]
+
+/-- BIND_ACK / ALTER_CONTEXT_RESP: decode(encode p) = p for every secondary address length (the alignment padding
+    `-(2 + len) % 4` is skipped exactly) and every result list -/
+theorem bindAck_roundtrip (h : Header) (wf : h.WF) (t : Option SecTrailer) (twf : TrailerWF t) (isAlter : Bool) (mx mr ag : Nat) (sa : Bytes)
+    (rs : List ContextResult)
+    (hpt : h.packetType = if isAlter then 15 else 12) (hal : h.authLen = authLenOf t)
+    (h1 : mx < 65536) (h2 : mr < 65536) (h3 : ag < 4294967296) (hsa : Rpc.utf8Valid sa = true) (hsl : sa.length + 1 < 65536)
+    (hrs : ∀ r ∈ rs, r.WF) (hn : rs.length < 256) :
+    ∃ b, pduPack ⟨h, t, .bindAck isAlter mx mr ag sa rs⟩ = .ok b ∧
+      (h.fragLen = b.length → pduUnpack b = .ok ⟨h, t, .bindAck isAlter mx mr ag sa rs⟩) := by
+  obtain ⟨hb, hh, hl, _⟩ := header_roundtrip h wf []
+  obtain ⟨bs, hbs, hbl, hbu⟩ := results_rt rs hrs []
+  generalize hbsa : (if sa = [] then [] else sa ++ [0] : Bytes) = bsa
+  have hbsal : bsa.length < 65536 := by rw [← hbsa]; split <;> simp <;> omega
+  obtain ⟨tb, htb, hframe⟩ := unpack_frame h wf t twf hb
+    (Py.toLE mx 2 ++ Py.toLE mr 2 ++ Py.toLE ag 4 ++ Py.toLE bsa.length 2 ++ bsa ++ Py.zeros (Py.negMod (2 + bsa.length) 4) ++ Py.toLE rs.length 4 ++ bs.flatten) hh hal
+  unfold pduPack
+  simp only [hh, bind, Except.bind, hbsa, le_ok _ 2 h1, le_ok _ 2 h2, le_ok _ 4 h3, le_ok _ 2 hbsal, le_ok _ 4 (show rs.length < 256 ^ 4 by omega), hbs, htb, pure, Except.pure]
+  refine ⟨_, rfl, fun hf => ?_⟩
+  have hf' : h.fragLen = 16 + (Py.toLE mx 2 ++ Py.toLE mr 2 ++ Py.toLE ag 4 ++ Py.toLE bsa.length 2 ++ bsa ++ Py.zeros (Py.negMod (2 + bsa.length) 4) ++ Py.toLE rs.length 4 ++ bs.flatten).length + tb.length := by
+    rw [hf]; simp [hl]; omega
+  have e := hframe hf'
+  simp only [List.append_assoc] at e ⊢
+  rw [e]
+  generalize hA : Py.toLE mx 2 = A
+  generalize hB : Py.toLE mr 2 = B
+  generalize hC : Py.toLE ag 4 = Cc
+  generalize hD : Py.toLE bsa.length 2 = D
+  generalize hZ : Py.zeros (Py.negMod (2 + bsa.length) 4) = Z
+  generalize hE : Py.toLE rs.length 4 = E
+  have lA : A.length = 2 := by rw [← hA]; simp
+  have lB : B.length = 2 := by rw [← hB]; simp
+  have lC : Cc.length = 4 := by rw [← hC]; simp
+  have lD : D.length = 2 := by rw [← hD]; simp
+  have lZ : Z.length = Py.negMod (2 + bsa.length) 4 := by rw [← hZ]; exact zeros_length _
+  have lE : E.length = 4 := by rw [← hE]; simp
+  have vA : Py.fromLE A = mx := by rw [← hA]; exact Py.fromLE_toLE _ 2 (by omega)
+  have vB : Py.fromLE B = mr := by rw [← hB]; exact Py.fromLE_toLE _ 2 (by omega)
+  have vC : Py.fromLE Cc = ag := by rw [← hC]; exact Py.fromLE_toLE _ 4 (by omega)
+  have vD : Py.fromLE D = bsa.length := by rw [← hD]; exact Py.fromLE_toLE _ 2 (by omega)
+  have hE0 : E = rs.length :: [0, 0, 0] := by
+    rw [← hE]; simp only [Py.toLE]
+    have a1 : rs.length % 256 = rs.length := Nat.mod_eq_of_lt hn
+    have a2 : rs.length / 256 = 0 := Nat.div_eq_of_lt hn
+    simp [a1, a2]
+  unfold bodyUnpack
+  have n1 : ¬ (h.packetType = 11 ∨ h.packetType = 14) := by rw [hpt]; cases isAlter <;> decide
+  have n2 : (h.packetType = 12 ∨ h.packetType = 15) := by rw [hpt]; cases isAlter <;> decide
+  have n3 : (decide (h.packetType = 15)) = isAlter := by rw [hpt]; cases isAlter <;> decide
+  simp only [n1, n2, if_false, if_true]
+  have s1 : Py.sliceN (A ++ (B ++ (Cc ++ (D ++ (bsa ++ (Z ++ (E ++ bs.flatten))))))) 0 2 = A := by slices0 [lA]
+  have s2 : Py.sliceN (A ++ (B ++ (Cc ++ (D ++ (bsa ++ (Z ++ (E ++ bs.flatten))))))) 2 4 = B := by slices0 [lA, lB]
+  have s3 : Py.sliceN (A ++ (B ++ (Cc ++ (D ++ (bsa ++ (Z ++ (E ++ bs.flatten))))))) 4 8 = Cc := by slices0 [lA, lB, lC]
+  have s4 : Py.sliceN (A ++ (B ++ (Cc ++ (D ++ (bsa ++ (Z ++ (E ++ bs.flatten))))))) 8 10 = D := by slices0 [lA, lB, lC, lD]
+  -- the secondary address: `view[10 : 10 + len - 1]` drops the NUL; for an empty address the slice is empty
+  have s5 : Py.slice (A ++ (B ++ (Cc ++ (D ++ (bsa ++ (Z ++ (E ++ bs.flatten))))))) 10 (10 + (bsa.length : Int) - 1) = sa := by
+    have pre : (A ++ (B ++ (Cc ++ D))).length = 10 := by simp [lA, lB, lC, lD]
+    have reassoc : A ++ (B ++ (Cc ++ (D ++ (bsa ++ (Z ++ (E ++ bs.flatten)))))) = (A ++ (B ++ (Cc ++ D))) ++ (bsa ++ (Z ++ (E ++ bs.flatten))) := by simp
+    rw [reassoc]
+    by_cases hs : sa = []
+    · subst hs
+      simp only [if_true] at hbsa
+      subst hbsa
+      have : (10 : Int) + ((([] : Bytes).length : Nat) : Int) - 1 = ((9 : Nat) : Int) := by simp
+      rw [this, Py.slice_lit _ 10 _ 10 9 rfl rfl]
+      have : (((A ++ (B ++ (Cc ++ D))) ++ ([] ++ (Z ++ (E ++ bs.flatten)))).take 9).length ≤ 9 := by rw [List.length_take]; exact Nat.min_le_left _ _
+      exact List.drop_eq_nil_of_le (by omega)
+    · simp only [hs, if_false] at hbsa
+      subst hbsa
+      have : (10 : Int) + (((sa ++ [0]).length : Nat) : Int) - 1 = (((A ++ (B ++ (Cc ++ D))).length + sa.length : Nat) : Int) := by
+        rw [pre]; simp; omega
+      rw [this, List.append_assoc sa [0], ← List.append_assoc (A ++ (B ++ (Cc ++ D))) sa]
+      exact Py.slice_mid (A ++ (B ++ (Cc ++ D))) sa _ 10 _ (by rw [pre]; rfl) rfl
+  have s6 : (A ++ (B ++ (Cc ++ (D ++ (bsa ++ (Z ++ (E ++ bs.flatten))))))).drop (10 + bsa.length + Py.negMod (2 + bsa.length) 4) = E ++ bs.flatten := by
+    have reassoc : A ++ (B ++ (Cc ++ (D ++ (bsa ++ (Z ++ (E ++ bs.flatten)))))) = (A ++ (B ++ (Cc ++ (D ++ (bsa ++ Z))))) ++ (E ++ bs.flatten) := by simp
+    rw [reassoc]
+    have : (A ++ (B ++ (Cc ++ (D ++ (bsa ++ Z))))).length = 10 + bsa.length + Py.negMod (2 + bsa.length) 4 := by simp [lA, lB, lC, lD, lZ]; omega
+    rw [← this, List.drop_left]
+  simp only [s1, s2, s3, s4, s5, s6, vA, vB, vC, vD, hsa, not_true_eq_false, if_false, bind, Except.bind]
+  rw [hE0]
+  have hb' := hbu
+  simp only [List.append_nil] at hb'
+  simp [at_, Py.index, hb', n3, pure, Except.pure]
+
+end DpapiNg.C12
+
+namespace DpapiNg.C12
+open DpapiNg DpapiNg.Rpc
+
+def SyntaxWF (s : SyntaxId) : Prop := s.uuid.length = 16 ∧ s.version < 65536 ∧ s.versionMinor < 65536
+
+theorem syntaxes_rt (ss : List SyntaxId) (wf : ∀ s ∈ ss, SyntaxWF s) (rest : Bytes) :
+    ∃ bs, ss.mapM syntaxPack = .ok bs ∧ bs.flatten.length = 20 * ss.length ∧ syntaxesUnpack ss.length (bs.flatten ++ rest) = .ok ss := by
+  induction ss with
+  | nil => exact ⟨[], rfl, rfl, rfl⟩
+  | cons s ss ih =>
+    obtain ⟨bs, h1, h2, h3⟩ := ih (fun x hx => wf x (List.mem_cons_of_mem _ hx))
+    obtain ⟨w1, w2, w3⟩ := wf s List.mem_cons_self
+    obtain ⟨b, hb, hl, hu⟩ := syntax_roundtrip s w1 w2 w3 (bs.flatten ++ rest)
+    refine ⟨b :: bs, by simp [List.mapM_cons, hb, h1, bind, Except.bind, pure, Except.pure], by simp [hl, h2]; omega, ?_⟩
+    simp only [List.flatten_cons, List.append_assoc, List.length_cons, syntaxesUnpack, hu, bind, Except.bind]
+    have : (b ++ (bs.flatten ++ rest)).drop 20 = bs.flatten ++ rest := by rw [← hl, List.drop_left]
+    simp [this, h3, pure, Except.pure]
+
+structure _root_.DpapiNg.Rpc.ContextElement.WF (c : ContextElement) : Prop where
+  id : c.contextId < 65536
+  abs : SyntaxWF c.abstractSyntax
+  ts : ∀ s ∈ c.transferSyntaxes, SyntaxWF s
+  n : c.transferSyntaxes.length < 65536
+
+theorem context_rt (c : ContextElement) (wf : c.WF) (rest : Bytes) :
+    ∃ b, contextPack c = .ok b ∧ b.length = 24 + c.transferSyntaxes.length * 20 ∧ contextUnpack (b ++ rest) = .ok c := by
+  obtain ⟨w1, ⟨a1, a2, a3⟩, w3, w4⟩ := wf
+  obtain ⟨ts, hts, htl, htu⟩ := syntaxes_rt c.transferSyntaxes w3 rest
+  obtain ⟨sb, hsb, hsl, hsu⟩ := syntax_roundtrip c.abstractSyntax a1 a2 a3 (ts.flatten ++ rest)
+  unfold contextPack
+  rw [le_ok _ 2 (by omega), le_ok _ 2 (by omega), hsb, hts]
+  simp only [bind, Except.bind, pure, Except.pure]
+  refine ⟨_, rfl, by simp [hsl, htl]; omega, ?_⟩
+  generalize hA : Py.toLE c.contextId 2 = A
+  generalize hB : Py.toLE c.transferSyntaxes.length 2 = B
+  have lA : A.length = 2 := by rw [← hA]; simp
+  have lB : B.length = 2 := by rw [← hB]; simp
+  have vA : Py.fromLE A = c.contextId := by rw [← hA]; exact Py.fromLE_toLE _ 2 (by omega)
+  have vB : Py.fromLE B = c.transferSyntaxes.length := by rw [← hB]; exact Py.fromLE_toLE _ 2 (by omega)
+  unfold contextUnpack
+  simp only [List.append_assoc]
+  have s1 : Py.sliceN (A ++ (B ++ (sb ++ (ts.flatten ++ rest)))) 0 2 = A := by slices0 [lA]
+  have s2 : Py.sliceN (A ++ (B ++ (sb ++ (ts.flatten ++ rest)))) 2 4 = B := by slices0 [lA, lB]
+  have s3 : (A ++ (B ++ (sb ++ (ts.flatten ++ rest)))).drop 4 = sb ++ (ts.flatten ++ rest) := by slices0 [lA, lB]
+  have s4 : (A ++ (B ++ (sb ++ (ts.flatten ++ rest)))).drop 24 = ts.flatten ++ rest := by slices0 [lA, lB, hsl]
+  simp only [s1, s2, s3, s4, vA, vB, hsu, htu, bind, Except.bind, pure, Except.pure]
+
+theorem contexts_rt (cs : List ContextElement) (wf : ∀ c ∈ cs, c.WF) (rest : Bytes) :
+    ∃ bs, cs.mapM contextPack = .ok bs ∧ contextsUnpack cs.length (bs.flatten ++ rest) = .ok cs := by
+  induction cs with
+  | nil => exact ⟨[], rfl, rfl⟩
+  | cons c cs ih =>
+    obtain ⟨bs, h1, h3⟩ := ih (fun x hx => wf x (List.mem_cons_of_mem _ hx))
+    obtain ⟨b, hb, hl, hu⟩ := context_rt c (wf c List.mem_cons_self) (bs.flatten ++ rest)
+    refine ⟨b :: bs, by simp [List.mapM_cons, hb, h1, bind, Except.bind, pure, Except.pure], ?_⟩
+    simp only [List.flatten_cons, List.append_assoc, List.length_cons, contextsUnpack, hu, bind, Except.bind]
+    have : (b ++ (bs.flatten ++ rest)).drop (24 + c.transferSyntaxes.length * 20) = bs.flatten ++ rest := by rw [← hl, List.drop_left]
+    simp [this, h3, pure, Except.pure]
+
+/-- BIND / ALTER_CONTEXT: decode(encode p) = p for every context list (any number of transfer syntaxes per context) -/
+theorem bind_roundtrip (h : Header) (wf : h.WF) (t : Option SecTrailer) (twf : TrailerWF t) (isAlter : Bool) (mx mr ag : Nat)
+    (cs : List ContextElement)
+    (hpt : h.packetType = if isAlter then 14 else 11) (hal : h.authLen = authLenOf t)
+    (h1 : mx < 65536) (h2 : mr < 65536) (h3 : ag < 4294967296) (hcs : ∀ c ∈ cs, c.WF) (hn : cs.length < 256) :
+    ∃ b, pduPack ⟨h, t, .bind isAlter mx mr ag cs⟩ = .ok b ∧
+      (h.fragLen = b.length → pduUnpack b = .ok ⟨h, t, .bind isAlter mx mr ag cs⟩) := by
+  obtain ⟨hb, hh, hl, _⟩ := header_roundtrip h wf []
+  obtain ⟨bs, hbs, hbu⟩ := contexts_rt cs hcs []
+  obtain ⟨tb, htb, hframe⟩ := unpack_frame h wf t twf hb (Py.toLE mx 2 ++ Py.toLE mr 2 ++ Py.toLE ag 4 ++ Py.toLE cs.length 4 ++ bs.flatten) hh hal
+  unfold pduPack
+  simp only [hh, bind, Except.bind, le_ok _ 2 h1, le_ok _ 2 h2, le_ok _ 4 h3, le_ok _ 4 (show cs.length < 256 ^ 4 by omega), hbs, htb, pure, Except.pure]
+  refine ⟨_, rfl, fun hf => ?_⟩
+  have hf' : h.fragLen = 16 + (Py.toLE mx 2 ++ Py.toLE mr 2 ++ Py.toLE ag 4 ++ Py.toLE cs.length 4 ++ bs.flatten).length + tb.length := by
+    rw [hf]; simp [hl]; omega
+  have e := hframe hf'
+  simp only [List.append_assoc] at e ⊢
+  rw [e]
+  generalize hA : Py.toLE mx 2 = A
+  generalize hB : Py.toLE mr 2 = B
+  generalize hC : Py.toLE ag 4 = Cc
+  generalize hE : Py.toLE cs.length 4 = E
+  have lA : A.length = 2 := by rw [← hA]; simp
+  have lB : B.length = 2 := by rw [← hB]; simp
+  have lC : Cc.length = 4 := by rw [← hC]; simp
+  have vA : Py.fromLE A = mx := by rw [← hA]; exact Py.fromLE_toLE _ 2 (by omega)
+  have vB : Py.fromLE B = mr := by rw [← hB]; exact Py.fromLE_toLE _ 2 (by omega)
+  have vC : Py.fromLE Cc = ag := by rw [← hC]; exact Py.fromLE_toLE _ 4 (by omega)
+  have hE0 : E = cs.length :: [0, 0, 0] := by
+    rw [← hE]; simp only [Py.toLE]
+    have a1 : cs.length % 256 = cs.length := Nat.mod_eq_of_lt hn
+    have a2 : cs.length / 256 = 0 := Nat.div_eq_of_lt hn
+    simp [a1, a2]
+  subst hE0
+  unfold bodyUnpack at_ Py.index
+  have n1 : (h.packetType = 11 ∨ h.packetType = 14) := by rw [hpt]; cases isAlter <;> decide
+  have n3 : (decide (h.packetType = 14)) = isAlter := by rw [hpt]; cases isAlter <;> decide
+  simp only [n1, if_true]
+  have s1 : Py.sliceN (A ++ (B ++ (Cc ++ (cs.length :: 0 :: 0 :: 0 :: bs.flatten)))) 0 2 = A := by slices0 [lA]
+  have s2 : Py.sliceN (A ++ (B ++ (Cc ++ (cs.length :: 0 :: 0 :: 0 :: bs.flatten)))) 2 4 = B := by slices0 [lA, lB]
+  have s3 : Py.sliceN (A ++ (B ++ (Cc ++ (cs.length :: 0 :: 0 :: 0 :: bs.flatten)))) 4 8 = Cc := by slices0 [lA, lB, lC]
+  have s4 : (A ++ (B ++ (Cc ++ (cs.length :: 0 :: 0 :: 0 :: bs.flatten))))[8]? = some cs.length := by
+    rw [List.getElem?_append_right (by omega), List.getElem?_append_right (by omega), List.getElem?_append_right (by omega)]; simp [lA, lB, lC]
+  have s5 : (A ++ (B ++ (Cc ++ (cs.length :: 0 :: 0 :: 0 :: bs.flatten)))).drop 12 = bs.flatten := by slices0 [lA, lB, lC]
+  have hb' := hbu
+  simp only [List.append_nil] at hb'
+  simp only [List.cons_append, List.nil_append, s1, s2, s3, s4, s5, vA, vB, vC, hb', n3, bind, Except.bind, pure, Except.pure]
+
+end DpapiNg.C12
+
+namespace DpapiNg.C12
+open DpapiNg DpapiNg.Rpc
+
+theorem cmd_or_flags (cmd k : Nat) (h : cmd < 16384) : (cmd ||| k * 16384) % 16384 = cmd ∧ (cmd ||| k * 16384) / 16384 * 16384 = k * 16384 := by
+  have e : k * 16384 = k <<< 14 := by rw [Nat.shiftLeft_eq]
+  have := Nat.shiftLeft_add_eq_or_of_lt (i := 14) (b := cmd) (by omega) k
+  rw [Nat.or_comm, e, ← this, Nat.shiftLeft_eq]
+  omega
+end DpapiNg.C12
+
+namespace DpapiNg.C12
+open DpapiNg DpapiNg.Rpc
+
+/-- verification-trailer commands the codec round-trips -/
+def CommandWF (c : Command) : Prop :=
+  c.command < 16384 ∧ (∃ k, k < 4 ∧ c.flags = k * 16384) ∧
+  match c.value with
+  | .raw v => c.command ≠ 1 ∧ c.command ≠ 2 ∧ c.command ≠ 3 ∧ v.length < 65536
+  | .bitmask bits => c.command = 1 ∧ bits < 4294967296
+  | .pcontext i t => c.command = 2 ∧ SyntaxWF i ∧ SyntaxWF t
+  | .header2 pt dr callId cid op => c.command = 3 ∧ validPacketType pt = true ∧ dr.byteOrder ≤ 1 ∧ dr.character ≤ 1 ∧ dr.floatingPoint ≤ 3 ∧
+      callId < 4294967296 ∧ cid < 65536 ∧ op < 65536
+
+theorem command_rt (c : Command) (wf : CommandWF c) :
+    ∃ b n, commandPack c = .ok b ∧ b.length = 4 + n ∧ ∀ rest, commandUnpack (b ++ rest) = .ok (c, n) := by
+  obtain ⟨cmd, flags, value⟩ := c
+  obtain ⟨w1, ⟨k, hk, hfl⟩, w3⟩ := wf
+  simp only at w1 hfl w3
+  subst hfl
+  obtain ⟨m1, m2⟩ := cmd_or_flags cmd k w1
+  have hcf : (cmd ||| k * 16384) < 65536 := by
+    have : (cmd ||| k * 16384) = (cmd ||| k * 16384) / 16384 * 16384 + (cmd ||| k * 16384) % 16384 := by omega
+    rw [m1, m2] at this; omega
+  -- common tail: given the packed value `vb` and what the value decoder returns on it
+  have tail : ∀ (vb : Bytes) (hvl : vb.length < 65536),
+      cmdValuePack ⟨cmd, k * 16384, value⟩ = .ok vb →
+      cmdValueUnpack cmd vb = .ok value →
+      ∃ b n, commandPack ⟨cmd, k * 16384, value⟩ = .ok b ∧ b.length = 4 + n ∧ ∀ rest, commandUnpack (b ++ rest) = .ok (⟨cmd, k * 16384, value⟩, n) := by
+    intro vb hvl hp hdec
+    refine ⟨Py.toLE (cmd ||| k * 16384) 2 ++ Py.toLE vb.length 2 ++ vb, vb.length, ?_, by simp; omega, fun rest => ?_⟩
+    · unfold commandPack
+      simp only [hp, bind, Except.bind, le_ok _ 2 (show (cmd ||| k * 16384) < 256 ^ 2 by omega), le_ok _ 2 (show vb.length < 256 ^ 2 by omega), pure, Except.pure]
+    · generalize hA : Py.toLE (cmd ||| k * 16384) 2 = A
+      generalize hB : Py.toLE vb.length 2 = B
+      have lA : A.length = 2 := by rw [← hA]; simp
+      have lB : B.length = 2 := by rw [← hB]; simp
+      have vA : Py.fromLE A = (cmd ||| k * 16384) := by rw [← hA]; exact Py.fromLE_toLE _ 2 (by omega)
+      have vB : Py.fromLE B = vb.length := by rw [← hB]; exact Py.fromLE_toLE _ 2 (by omega)
+      unfold commandUnpack
+      simp only [List.append_assoc]
+      have s1 : Py.sliceN (A ++ (B ++ (vb ++ rest))) 0 2 = A := by slices0 [lA]
+      have s2 : Py.sliceN (A ++ (B ++ (vb ++ rest))) 2 4 = B := by slices0 [lA, lB]
+      have s3 : Py.sliceN (A ++ (B ++ (vb ++ rest))) 4 (4 + vb.length) = vb := by
+        have := Py.mid' (A ++ B) vb rest 4 (4 + vb.length) (by simp [lA, lB]) rfl
+        simpa [Py.sliceN] using this
+      simp only [s1, s2, vA, vB, s3, m1, m2, hdec, bind, Except.bind, pure, Except.pure]
+  cases value with
+  | raw v =>
+    obtain ⟨n1, n2, n3, hl⟩ := w3
+    exact tail v hl rfl (by simp [cmdValueUnpack, n1, n2, n3, pure, Except.pure])
+  | bitmask bits =>
+    obtain ⟨e1, hb⟩ := w3
+    subst e1
+    refine tail (Py.toLE bits 4) (by simp) (by simp [cmdValuePack, le_ok _ 4 (show bits < 256 ^ 4 by omega)]) ?_
+    simp [cmdValueUnpack, Py.fromLE_toLE bits 4 (by omega), pure, Except.pure]
+  | pcontext i t =>
+    obtain ⟨e1, ⟨i1, i2, i3⟩, ⟨t1, t2, t3⟩⟩ := w3
+    subst e1
+    obtain ⟨bt, hbt, hbtl, hbtu⟩ := syntax_roundtrip t t1 t2 t3 []
+    obtain ⟨bi, hbi, hbil, hbiu⟩ := syntax_roundtrip i i1 i2 i3 bt
+    refine tail (bi ++ bt) (by simp [hbil, hbtl]) (by simp [cmdValuePack, hbi, hbt, bind, Except.bind, pure, Except.pure]) ?_
+    have hd : (bi ++ bt).drop 20 = bt := by rw [← hbil, List.drop_left]
+    simp only [List.append_nil] at hbtu
+    simp [cmdValueUnpack, hbiu, hd, hbtu, bind, Except.bind, pure, Except.pure]
+  | header2 pt dr callId cid op =>
+    obtain ⟨e1, hpt, d1, d2, d3, hc, hci, hop⟩ := w3
+    subst e1
+    have hptl : pt < 256 := by unfold validPacketType at hpt; simp at hpt; omega
+    obtain ⟨db, hdb, hdl, hdu⟩ := dataRep_rt dr d1 d2 d3 []
+    simp only [List.append_nil] at hdu
+    refine tail ([pt] ++ [0, 0, 0] ++ db ++ Py.toLE callId 4 ++ Py.toLE cid 2 ++ Py.toLE op 2) (by simp [hdl])
+      (by simp [cmdValuePack, le_ok _ 1 (show pt < 256 ^ 1 by omega), toLE1 _ hptl, hdb, le_ok _ 4 (show callId < 256 ^ 4 by omega), le_ok _ 2 (show cid < 256 ^ 2 by omega),
+            le_ok _ 2 (show op < 256 ^ 2 by omega), bind, Except.bind, pure, Except.pure]) ?_
+    generalize hX : Py.toLE callId 4 = X
+    generalize hY : Py.toLE cid 2 = Y
+    generalize hW : Py.toLE op 2 = W
+    have lX : X.length = 4 := by rw [← hX]; simp
+    have lY : Y.length = 2 := by rw [← hY]; simp
+    have lW : W.length = 2 := by rw [← hW]; simp
+    have vX : Py.fromLE X = callId := by rw [← hX]; exact Py.fromLE_toLE _ 4 (by omega)
+    have vY : Py.fromLE Y = cid := by rw [← hY]; exact Py.fromLE_toLE _ 2 (by omega)
+    have vW : Py.fromLE W = op := by rw [← hW]; exact Py.fromLE_toLE _ 2 (by omega)
+    unfold cmdValueUnpack
+    simp only [List.cons_append, List.nil_append, List.append_assoc]
+    have s1 : Py.sliceN (pt :: 0 :: 0 :: 0 :: (db ++ (X ++ (Y ++ W)))) 4 8 = db := by slices0 [hdl]
+    have s2 : Py.sliceN (pt :: 0 :: 0 :: 0 :: (db ++ (X ++ (Y ++ W)))) 8 12 = X := by slices0 [hdl, lX]
+    have s3 : Py.sliceN (pt :: 0 :: 0 :: 0 :: (db ++ (X ++ (Y ++ W)))) 12 14 = Y := by slices0 [hdl, lX, lY]
+    have s4 : Py.sliceN (pt :: 0 :: 0 :: 0 :: (db ++ (X ++ (Y ++ W)))) 14 16 = W := by
+      have := Py.mid' (pt :: 0 :: 0 :: 0 :: (db ++ (X ++ Y))) W [] 14 16 (by simp [hdl, lX, lY]) (by simp [lW])
+      simpa [Py.sliceN] using this
+    simp [at_, Py.index, s1, s2, s3, s4, hpt, hdu, vX, vY, vW, bind, Except.bind, pure, Except.pure]
+
+end DpapiNg.C12
+
+namespace DpapiNg.C12
+open DpapiNg DpapiNg.Rpc
+
+def EndSet (c : Command) : Prop := c.flags / 16384 % 2 = 1
+
+theorem vtCommands_rt (init : List Command) (last : Command) (hi : ∀ c ∈ init, CommandWF c ∧ ¬ EndSet c) (hl : CommandWF last ∧ EndSet last) :
+    ∃ bs, (init ++ [last]).mapM commandPack = .ok bs ∧ 4 * (init.length + 1) ≤ bs.flatten.length ∧
+      ∀ fuel, init.length + 1 ≤ fuel → vtCommands fuel bs.flatten = .ok (init ++ [last]) := by
+  induction init with
+  | nil =>
+    obtain ⟨b, n, hb, hbl, hu⟩ := command_rt last hl.1
+    refine ⟨[b], by simp [List.mapM_cons, hb, bind, Except.bind, pure, Except.pure], by simp [hbl], fun fuel hf => ?_⟩
+    cases fuel with
+    | zero => omega
+    | succ fuel =>
+      have hu' := hu []
+      simp only [List.append_nil] at hu'
+      have hge : ¬ b.length < 4 := by omega
+      have hend : last.flags / 16384 % 2 = 1 := hl.2
+      simp [vtCommands, hge, hu', hend, bind, Except.bind, pure, Except.pure]
+  | cons c cs ih =>
+    obtain ⟨bs, h1, h2, h3⟩ := ih (fun x hx => hi x (List.mem_cons_of_mem _ hx))
+    obtain ⟨wfc, nend⟩ := hi c List.mem_cons_self
+    obtain ⟨b, n, hb, hbl, hu⟩ := command_rt c wfc
+    refine ⟨b :: bs, by simp [List.mapM_cons, hb, h1, bind, Except.bind, pure, Except.pure],
+      by rw [List.flatten_cons, List.length_append, hbl, List.length_cons]; omega, fun fuel hf => ?_⟩
+    cases fuel with
+    | zero => simp at hf
+    | succ fuel =>
+      have hge : ¬ (b ++ bs.flatten).length < 4 := by simp [hbl]; omega
+      have hne : ¬ (c.flags / 16384 % 2 = 1) := nend
+      have hd : (b ++ bs.flatten).drop (4 + n) = bs.flatten := by rw [← hbl, List.drop_left]
+      simp only [List.flatten_cons, List.cons_append, vtCommands, hge, if_false, hu bs.flatten, bind, Except.bind, hne, hd,
+        h3 fuel (by simp at hf; omega), pure, Except.pure]
+
+/-- **verification trailers**: decode(encode cmds) = cmds whenever exactly the last command carries SEC_VT_COMMAND_END -/
+theorem vt_roundtrip (init : List Command) (last : Command) (hi : ∀ c ∈ init, CommandWF c ∧ ¬ EndSet c) (hl : CommandWF last ∧ EndSet last) :
+    ∃ b, vtPack (init ++ [last]) = .ok b ∧ vtUnpack b = .ok (init ++ [last]) := by
+  obtain ⟨bs, h1, h2, h3⟩ := vtCommands_rt init last hi hl
+  refine ⟨vtSignature ++ bs.flatten, by simp [vtPack, h1, bind, Except.bind, pure, Except.pure], ?_⟩
+  unfold vtUnpack
+  have s1 : Py.sliceN (vtSignature ++ bs.flatten) 0 8 = vtSignature := by
+    have := Py.mid' [] vtSignature bs.flatten 0 8 rfl (by decide)
+    simpa [Py.sliceN] using this
+  have s2 : (vtSignature ++ bs.flatten).drop 8 = bs.flatten := by
+    have : vtSignature.length = 8 := by decide
+    rw [← this, List.drop_left]
+  simp only [s1, ne_eq, not_true_eq_false, if_false, s2]
+  apply h3
+  have : (vtSignature ++ bs.flatten).length = 8 + bs.flatten.length := by
+    rw [List.length_append]; rfl
+  rw [this]; omega
+
+end DpapiNg.C12
